@@ -61,7 +61,7 @@ def main(tier):
         n = prod(shape)
         for qt in ("qint8", "qfloat8_e4m3fn", "qfloat8_e5m2", "qint4"):
             for sshape in ([], [1], [1, 1], [1, 1, 1], [2], [shape[0]] + [1] * (len(shape) - 1), [1] * (len(shape) - 1) + [shape[-1]]):
-                for fn, axis in (("quantize_activation", None), ("sym_quantize", None), ("sym_quantize", 0), ("sym_quantize", -1), ("sym_quantize", 1)):
+                for fn, axis in (("quantize_activation", None), ("sym_quantize", None), ("sym_quantize", 0), ("sym_quantize", -1), ("sym_quantize", 1), ("sym_quantize", 2), ("sym_quantize", -2), ("sym_quantize", 3), ("sym_quantize", -4)):
                     if tier == "quick" and rng.random() > 0.5:
                         continue
                     dtype = rng.choice(["float32", "float16", "bfloat16"])
@@ -164,6 +164,18 @@ def main(tier):
             is8 = N.QINFO[c["qtype"]][1] == 8
             if r["qtype"] != c["qtype"] or r["size"] != c["shape"] or r["deq"]["shape"] != c["shape"]:
                 ck.violation("accepted configuration not honoured (qtype/shape)", {"config": cfg, "observed": {k: r[k] for k in ("qtype", "size", "axis", "group")}})
+            else:
+                # honoured in VALUE: what an accepted configuration holds is the source at the resolution of the requested type (half a
+                # step of the type's grid spanned over the tensor's range, a coarse bound that C01 - C03 refine)
+                xs_ = [N.decode(b, c["dtype"]) for b in c["bits"]]
+                ds_ = [N.decode(b, c["dtype"]) for b in r["deq"]["data"]]
+                if all(N.is_finite(v) for v in xs_):
+                    amax_ = max(abs(v) for v in xs_)
+                    frac_ = {"qint8": Fraction(6, 1000), "qfloat8_e4m3fn": Fraction(7, 100), "qfloat8_e5m2": Fraction(14, 100), "qint4": Fraction(75, 1000), "qint2": Fraction(36, 100)}[c["qtype"]]
+                    worst_ = max((abs(d - x) if N.is_finite(d) else amax_ * 1000 + 1) for d, x in zip(ds_, xs_))
+                    if worst_ > frac_ * amax_ * (1 + 8 * N.u_eta(c["dtype"])[0]) + 4 * N.u_eta(c["dtype"])[0] * amax_:
+                        ck.violation(f"accepted configuration not honoured in value: qtype={c['qtype']} axis={c['axis']} group_size={c['group_size']} optimizer={c['optimizer']} shape={c['shape']} dequantizes "
+                                     f"{float(worst_):.4g} away from its source (range {float(amax_):.4g}; the requested type resolves {float(frac_ * amax_):.4g})", {"config": cfg, "worst": float(worst_), "absmax": float(amax_), "bits": c["bits"]})
             if is8:
                 want_axis = None if c["shape"][c["axis"]] == 1 else (-1 if (c["axis"] % len(c["shape"])) == len(c["shape"]) - 1 and c["axis"] != 0 else c["axis"])
                 if r["kind"] != 0 or r["axis"] not in (want_axis, (0 if want_axis == 0 else want_axis)):
